@@ -86,7 +86,8 @@ def drive(tier):
 def run(tier):
     rep = Report("C15", tier)
     rep.add_mc("MC_Merkle", vlib.run_mc("MC_Merkle", workers=4))
-    recs = drive(tier)
+    recs, nsecond, ndiff = vlib.second_pass(drive, tier)
+    rep.cov["second_pass_calls"], rep.cov["second_pass_differing"] = nsecond, ndiff
     mm = vlib.validate("Trace_Checks", recs)
     rep.apply_mismatches(recs, mm)
     rep.cov["evaluations"] = len(recs)
